@@ -24,6 +24,7 @@ Definition S_ := mkS.
 Record bcase := mkBC {
   bc_old : option backend;
   bc_cur : backend;
+  bc_early : list N;                  (* digests of bc_cur as Backends.Shrink saw them *)
   bc_affinity : bool;                 (* Backend.CookieAffinity(): cookie values are rendered *)
   bc_answers : list answer;           (* what the fake answered to this backend's commands, in order *)
   bc_executed : list bool;            (* per command: did the fake execute it (false: lost or refused) *)
@@ -62,7 +63,7 @@ Definition resp_of (l : list answer) : nat -> answer := fun n => nth n l (AText 
 Definition to_step_in (c : step_case) : step_in :=
   mkSI (sc_committed c) (sc_other_changed c) (sc_host_removed c) (sc_back_removed c)
        (map (fun h => mkHP (hc_old h) (hc_cur h) (resp_of (hc_answers h))) (sc_hosts c))
-       (map (fun b => mkBP (bc_old b) (bc_cur b) (resp_of (bc_answers b))) (sc_backs c))
+       (map (fun b => mkBP (bc_old b) (bc_cur b) (bc_early b) (resp_of (bc_answers b))) (sc_backs c))
        (map oc_back (sc_others c)).
 
 Fixpoint strs_eqb (a b : list string) : bool :=
